@@ -12,6 +12,7 @@ import (
 	"errors"
 	"fmt"
 	"strings"
+	"sync/atomic"
 
 	ds "github.com/ipfs/go-datastore"
 	"github.com/ipfs/go-datastore/query"
@@ -97,6 +98,8 @@ type keystore struct {
 	requests chan operation
 	close    chan struct{}
 	done     chan struct{}
+	closing  atomic.Bool   // set by the first Close
+	closed   chan struct{} // closed when the first Close has finished
 
 	logger *log.ZapEventLogger
 }
@@ -114,6 +117,7 @@ func NewKeystore(d ds.Batching, opts ...Option) (Keystore, error) {
 		requests:   make(chan operation),
 		close:      make(chan struct{}),
 		done:       make(chan struct{}),
+		closed:     make(chan struct{}),
 		logger:     log.Logger(cfg.loggerName),
 	}
 	go ks.worker()
@@ -613,19 +617,20 @@ func (s *keystore) Size(ctx context.Context) (int, error) {
 // startup on the next run. The ordering is critical: persistSize() must be
 // called after <-s.done to avoid race conditions with the worker goroutine.
 func (s *keystore) Close() error {
-	var err error
-	select {
-	case <-s.close:
-		// Already closed
-	default:
-		close(s.close)
-		<-s.done // Wait for worker to exit
-		if err = s.persistSize(); err != nil {
-			return fmt.Errorf("error persisting size on close: %w", err)
-		}
-		if err = s.ds.Sync(context.Background(), sizeKey); err != nil {
-			return fmt.Errorf("error syncing size on close: %w", err)
-		}
+	if !s.closing.CompareAndSwap(false, true) {
+		// Not the first call. Return nil as before, but only once the first
+		// call has finished: never while the worker is still running.
+		<-s.closed
+		return nil
 	}
-	return err
+	defer close(s.closed)
+	close(s.close)
+	<-s.done // Wait for worker to exit
+	if err := s.persistSize(); err != nil {
+		return fmt.Errorf("error persisting size on close: %w", err)
+	}
+	if err := s.ds.Sync(context.Background(), sizeKey); err != nil {
+		return fmt.Errorf("error syncing size on close: %w", err)
+	}
+	return nil
 }
